@@ -25,9 +25,21 @@ def opRadii (args : List String) : String :=
       | some p => showR (p.resolve tables z)
   | _ => "bad-op"
 
+/-- `chiral m;m;…` with m = nine comma-separated integers (row major) -/
+def opChiral (args : List String) : String :=
+  open Matid.Chirality in
+  match args with
+  | [ms] =>
+    let mats := (ms.splitOn ";").mapM fun m => (parseList? parseInt? m).bind parseMat3?
+    match mats with
+    | some l => showBool (isChiral l)
+    | none => "bad-op"
+  | _ => "bad-op"
+
 def step (line : String) : String :=
   match words line with
   | "radii" :: args => opRadii args
+  | "chiral" :: args => opChiral args
   | _ => "bad-op"
 
 partial def loop (h : IO.FS.Stream) (out : IO.FS.Stream) : IO Unit := do
